@@ -28,15 +28,15 @@ class TalkerAliasDataFormat(BitsInterface, enum.Enum):
         elif self.value == TalkerAliasDataFormat.ISOEightBitCharacters.value:
             return string.encode("latin")
 
-    def decode(self, raw: bytes) -> str:
+    def decode(self, raw: bytes, errors: str = "strict") -> str:
         if self.value == TalkerAliasDataFormat.SevenBitCharacters.value:
-            return raw.decode("646")
+            return raw.decode("646", errors)
         elif self.value == TalkerAliasDataFormat.UnicodeUTF16LE.value:
-            return raw.decode("utf-16-le")
+            return raw.decode("utf-16-le", errors)
         elif self.value == TalkerAliasDataFormat.UnicodeUTF8.value:
-            return raw.decode("utf8")
+            return raw.decode("utf8", errors)
         elif self.value == TalkerAliasDataFormat.ISOEightBitCharacters.value:
-            return raw.decode("latin")
+            return raw.decode("latin", errors)
 
     def as_bits(self) -> bitarray:
         return int2ba(self.value, length=2)
